@@ -1,6 +1,7 @@
 package checks
 
 import (
+	"math/big"
 	"fmt"
 
 	vmcommon "github.com/ElrondNetwork/elrond-vm-common"
@@ -64,6 +65,15 @@ func payableMenu(w *world.World, o menuOpts) []world.Action {
 					for _, a := range batch {
 						a.CallType = ct
 						acts = append(acts, a)
+						if ex == nil && (ct == vmcommon.AsynchronousCall || ct == vmcommon.DirectCall) {
+							// locked gas and a call value are input fields that exempt from nothing
+							l := a
+							l.GasLocked = 1
+							acts = append(acts, l)
+							v := a
+							v.Value = big.NewInt(1)
+							acts = append(acts, v)
+						}
 					}
 				}
 			}
